@@ -23,7 +23,8 @@ func init() {
 		Explanation: "Decides that no 'unhandled kind' panic is reachable for the closed kinds the code switches on: every type switch with a panicking default (42 today, outside vendored x/tools code) is decided against (a) the full universe of implementors of its interface — all IR instructions that go/ir constructs, all go/ast statement/expression/declaration kinds, all go/types types — with per-(site,type) exemptions, (b) the node-type filter of the inspector traversal that feeds it, or (c) a frozen, individually justified case set where the universe follows from the Go grammar or a guard (loss of a case only) (R3.1); " +
 			"switches over builtin names are decided against the builtins from go/types' universe that are lowered to calls with pointer-like results plus the IR builder's synthetic builtins (R3.2); unchecked type assertions on the node delivered to an inspector callback must name the only type of its filter (R3.3); the type checker's Go version on the default path is never a constant lower than what the compiler accepted (R3.4); no analyzer's Run returns a non-nil error except the config analyzer for a broken staticcheck.conf (R3.5). " +
 			"It does NOT decide arbitrary panics (index/nil faults, unchecked assertions elsewhere), analyzer error returns, or termination." +
-			" Also decided: lookups in go/ir's object-keyed tables use origin objects when the key comes out of a method set or selection; switches over operator tokens with a panicking default are complete for the operator universe of their source (an IR comparison handled only for == and != must be guarded by (*ir.Const).IsNil) — this found the crash on `x < zero` for a type parameter's zero value.",
+			" Also decided: lookups in go/ir's object-keyed tables use origin objects when the key comes out of a method set or selection; switches over operator tokens with a panicking default are complete for the operator universe of their source (an IR comparison handled only for == and != must be guarded by (*ir.Const).IsNil) — this found the crash on `x < zero` for a type parameter's zero value." +
+			" A handler releases its worker slot before it blocks on the unbuffered package queue (termination with few workers).",
 		RuleText:    "obligation = (switch site, type/builtin/filter element); universes computed from go/types (implementors), from the inspector call's typed-nil arguments, from types.Universe/types.Unsafe; tables/c03_switches.tsv holds one reviewed line per site or exemption",
 		Assumptions: []string{"a package that reaches analysis parses and type-checks (no Bad* nodes)", "the Go grammar and go/types invariants quoted in tables/c03_switches.tsv"},
 		Run:         runC03,
